@@ -662,7 +662,7 @@ func flagsStr(v int) string {
 	return sb.String()
 }
 
-var profiles = []string{"plain", "plain", "types", "types", "optmix", "bad", "rcode", "names", "size", "size", "qcount", "zero", "hdr", "svcbopt"}
+var profiles = []string{"plain", "plain", "types", "types", "optmix", "bad", "rcode", "names", "size", "size", "qcount", "zero", "hdr", "svcbopt", "bigopt"}
 
 func gen(r *vlib.R, n int, tier string, emit func(string)) {
 	count := 0
